@@ -59,7 +59,12 @@ func runC08(c *runCtx) {
 		// identity history: versions at non-decreasing logical times with varying key sets
 		nv := r.rangeInt(1, 5)
 		t := uint64(r.rangeInt(1, 3))
-		repo.Witness("bugs-edit", lamport.Time(t))
+		// one identity in three is older than the repository's bug clocks: its first version
+		// carries no bugs-edit time at all (and counts from time 0)
+		lateClock := i%3 == 0
+		if !lateClock {
+			repo.Witness("bugs-edit", lamport.Time(t))
+		}
 		subset := func() []*identity.Key {
 			var ks []*identity.Key
 			for _, k := range pool {
@@ -90,6 +95,18 @@ func runC08(c *runCtx) {
 			return out
 		}
 		hist = append(hist, ver{t, names(first)})
+		if lateClock {
+			hist[0].T = 0
+			if first == nil {
+				// make it matter: the old identity has a key from the start
+				first = []*identity.Key{pool[0]}
+				iden, err = identity.NewIdentityFull(repo, "signer", "s@example.com", "", "", first)
+				if err != nil {
+					panic(err)
+				}
+				hist[0].Keys = names(first)
+			}
+		}
 		for v := 1; v < nv; v++ {
 			t += uint64(r.intn(4)) // equal times happen
 			repo.Witness("bugs-edit", lamport.Time(t))
@@ -108,7 +125,11 @@ func runC08(c *runCtx) {
 		}
 		var versions []map[string]any
 		for k, h := range hist {
-			versions = append(versions, map[string]any{"commit": fmt.Sprintf("v%d", k), "times": [][]any{{"bugs-edit", h.T}}, "keys": h.Keys,
+			times := [][]any{{"bugs-edit", h.T}}
+			if lateClock && k == 0 {
+				times = [][]any{}
+			}
+			versions = append(versions, map[string]any{"commit": fmt.Sprintf("v%d", k), "times": times, "keys": h.Keys,
 				"nameSafe": true, "loginSafe": true, "emailSafe": true, "avatarOk": true, "nonceLen": 20, "keysOk": true, "loginEmpty": true})
 		}
 		// the model's view of which keys are in force, compared with the implementation's
@@ -223,6 +244,7 @@ func runC08(c *runCtx) {
 		c.emit(map[string]any{"cmd": "check", "clock": "bugs-edit", "versions": versions, "commits": commits, "backend": backend}, verdicts)
 		c.nontrivial(mustJSON(hist))
 		c.count("backend=" + backend)
+		c.count(fmt.Sprintf("identity-older-than-clock=%v", lateClock))
 		repo.Close()
 		if backend == "gogit" {
 			cleanupScratch()
